@@ -1,7 +1,6 @@
 package main
 
 import (
-	"sync"
 	"context"
 	"fmt"
 	distributed "github.com/wealdtech/go-eth2-wallet-distributed"
@@ -12,6 +11,7 @@ import (
 	"regexp"
 	"sort"
 	"strings"
+	"sync"
 
 	"github.com/attestantio/dirk/core"
 	listerhandler "github.com/attestantio/dirk/services/api/grpc/handlers/lister"
@@ -182,6 +182,42 @@ func cmdList(args []string) int {
 					}(j)
 				}
 				cwg.Wait()
+			}
+			// ... the cache insertions of overlapping creations at the very same time: what concurrent Generate requests
+			// do (services/process/standard generate: CreateAccount, then fetcher.AddAccount, no common lock), with
+			// the slow key-store encryption taken out of the window
+			if call == 9 && ci < 4 {
+				if w, err := node.Fetcher.FetchWallet(ctx, "Wallet 1"); err == nil {
+					if l, ok := w.(e2wtypes.WalletLocker); ok {
+						_ = l.Unlock(ctx, nil)
+					}
+					for batch := 0; batch < 3; batch++ {
+						var made []e2wtypes.Account
+						for j := 0; j < 8; j++ {
+							a, err := w.(e2wtypes.WalletAccountCreator).CreateAccount(ctx, fmt.Sprintf("Burst %d-%d", batch, j), []byte("pass"))
+							if err == nil {
+								made = append(made, a)
+							}
+						}
+						start := make(chan struct{})
+						var cwg sync.WaitGroup
+						for _, a := range made {
+							cwg.Add(1)
+							go func(a e2wtypes.Account) {
+								defer cwg.Done()
+								<-start
+								_ = node.Fetcher.AddAccount(ctx, w, a)
+							}(a)
+						}
+						close(start)
+						cwg.Wait()
+						for _, a := range made {
+							nextID++
+							overlay = append(overlay, acc{"Wallet 1", a.Name(), nextID, a.PublicKey().Marshal()})
+							stats["created.burst"]++
+						}
+					}
+				}
 			}
 			client := []string{"client1", "client1", "client1", "client1", "client1", "client1", "client2", "client2", "nobody", ""}[rng.Intn(10)]
 			var paths []listPath
